@@ -1387,9 +1387,7 @@ func getHashCode(n NodeNavigator) uint64 {
 	var sb bytes.Buffer
 	switch n.NodeType() {
 	case AttributeNode, TextNode, CommentNode:
-		sb.WriteString(n.LocalName())
-		sb.WriteByte('=')
-		sb.WriteString(n.Value())
+		writeHashLabel(&sb, n.NodeType(), n.LocalName()+"="+n.Value())
 		// https://github.com/antchfx/htmlquery/issues/25
 		d := 1
 		for n.MoveToPrevious() {
@@ -1406,7 +1404,7 @@ func getHashCode(n NodeNavigator) uint64 {
 			sb.WriteString(strconv.Itoa(d))
 		}
 	case ElementNode:
-		sb.WriteString(n.Prefix() + n.LocalName())
+		writeHashLabel(&sb, ElementNode, n.Prefix()+":"+n.LocalName())
 		d := 1
 		for n.MoveToPrevious() {
 			d++
@@ -1426,6 +1424,16 @@ func getHashCode(n NodeNavigator) uint64 {
 	h := fnv.New64a()
 	h.Write(sb.Bytes())
 	return h.Sum64()
+}
+
+// writeHashLabel writes the node type and the length-prefixed label of a node, so that
+// the label cannot run into the '-' separated position path that is written after it.
+func writeHashLabel(sb *bytes.Buffer, typ NodeType, label string) {
+	sb.WriteString(strconv.Itoa(int(typ)))
+	sb.WriteByte(':')
+	sb.WriteString(strconv.Itoa(len(label)))
+	sb.WriteByte(':')
+	sb.WriteString(label)
 }
 
 func getNodePosition(q query) int {
